@@ -442,6 +442,11 @@ class BooleanExpression(FilterExpression):
                     f"({expr})" if parent_precedence >= PRECEDENCE_LOGICAL_OR else expr
                 )
 
+            # Comparison and membership operators bind tighter than `&&` and
+            # `||`, but not as tight as `!`.
+            expr = str(expression)
+            return f"({expr})" if parent_precedence >= PRECEDENCE_PREFIX else expr
+
         if isinstance(expression, PrefixExpression):
             operand = self._canonical_string(expression.right, PRECEDENCE_PREFIX)
             expr = f"!{operand}"
